@@ -585,6 +585,33 @@ pub fn scn_sorter_real(out: &mut TraceOut, r: &mut R, idx: u64, _small_entries: 
     run_logged(out, &cfg, &inserts, &ids);
 }
 
+/// C14 / C17: an entry whose key or value length sits on a framing boundary (or whose payload lands
+/// on / just below a power of two) as the FIRST entry of a fresh sorter with its real default
+/// budget: the buffer has to grow from its initial capacity to the entry, the entry is then
+/// dumped, read back and merged like any other.
+pub fn scn_sorter_framing(out: &mut TraceOut, r: &mut R, idx: u64, _heavy: bool) {
+    let lens: [usize; 14] = [127, 128, 129, 16383, 16384, 16385, 262143, 262144, 2097135, 2097136, 2097151, 2097152, 2097153, 4194296];
+    let i = idx as usize;
+    let len = lens[i % lens.len()];
+    let (kl, vl) = match (i / lens.len()) % 3 {
+        0 => (0, len),
+        1 => (len, 0),
+        _ => (1, len - 1),
+    };
+    let mut cfg = random_scfg(r, false);
+    cfg.creator = 1;
+    cfg.chunk.codec = 0;
+    cfg.chunk.block_size = 65536;
+    cfg.threads = 0;
+    cfg.requested = 0;
+    cfg.stable = true;
+    cfg.join = false;
+    cfg.first = false;
+    cfg.realloc = (i / (3 * lens.len())) % 2 == 0;
+    let inserts: Vec<Entry> = vec![(vec![5u8; kl], stoken(1, vl)), (vec![9u8], stoken(2, 8)), (vec![5u8; kl], stoken(3, 9))];
+    run_logged(out, &cfg, &inserts, &[1, 2, 3]);
+}
+
 /// C17: sorter runs under the allocation monitor, with the buffer accounting (hook H2) logged
 /// after every insert. Entry sizes: empty, tiny, exactly filling the buffer, one byte more than
 /// what is left, larger than the whole buffer; repeated growth from a 32-byte buffer.
@@ -632,7 +659,13 @@ pub fn scn_alloc(out: &mut TraceOut, r: &mut R, idx: u64, heavy: bool) {
                     60..=69 => room + 1,             // one byte too many
                     70..=79 => room.saturating_sub(1),
                     80..=89 => cap + 3,              // larger than the whole buffer
-                    90..=94 => 2 * cap + 17,
+                    90..=93 => 2 * cap + 17,
+                    // growth whose payload lands on / just below a power of two above the capacity:
+                    // the bound of the entry (16 bytes) must be part of the size asked for
+                    94..=96 => {
+                        let m = (cap + 1).next_power_of_two() << (i % 2);
+                        m.saturating_sub(elen + k.len() + [0usize, 1, 8, 15, 16, 17][i % 6])
+                    }
                     _ => (t / 4).saturating_sub(16 + k.len()),
                 };
                 let failing_step = fail_growth && i == plan.len() * 2 / 3;
